@@ -37,6 +37,10 @@ def _len(I, args, kw):
         return SInt(z3.Length(v.t))
     if isinstance(v, SSeq):
         return SInt(z3.Length(v.t))
+    if isinstance(v, HSet):
+        return SInt(v.count)
+    if isinstance(v, HListView):
+        return SInt(z3.Length(v.seq))
     if is_tagged(v, "range"):
         lo, hi = ex.to_int_term(v[1]), ex.to_int_term(v[2])
         return SInt(z3.If(hi - lo > 0, hi - lo, 0))
@@ -498,7 +502,31 @@ def _dict(I, args, kw):
     return HDict(concrete=d)
 
 
-@ext(set, frozenset)
+@ext(set)
+def _set_new(I, args, kw):
+    ex = I.ex
+    if not args:
+        return HSet()
+    return _set(I, args, kw)
+
+
+@meth("set", "add")
+def _set_add(I, recv, args, kw):
+    ex = I.ex
+    (x,) = args
+    t, k = ex.lift(x)
+    if recv.kind is None:
+        recv.kind = k
+        recv.has = z3.K(ELEM_SORT[k], z3.BoolVal(False))
+    if k != recv.kind:
+        raise Unsupported("set with elements of different kinds")
+    already = z3.Select(recv.has, t)
+    recv.count = z3.If(already, recv.count, recv.count + 1)
+    recv.has = z3.Store(recv.has, t, z3.BoolVal(True))
+    return None
+
+
+@ext(frozenset)
 def _set(I, args, kw):
     ex = I.ex
     if not args:
@@ -1297,3 +1325,15 @@ def _ms_markup(I, args, kw):
 def _ms_unescape(I, recv, args, kw):
     I.use("Markup.unescape(): a plain str")
     return I.ex.fresh("unescaped", "str")
+
+
+@meth("listview", "append")
+def _lv_append(I, recv, args, kw):
+    ex = I.ex
+    (x,) = args
+    t, k = ex.lift(x)
+    if k != "any":
+        raise Unsupported("append of a non-object to a list of objects")
+    d = recv.d
+    d.val = z3.Store(d.val, recv.kt, z3.Concat(z3.Select(d.val, recv.kt), z3.Unit(t)))
+    return None
